@@ -109,7 +109,13 @@ def run_pipeline(rec, rnd, cycles, idx, clear_p):
             mocks = {k: TestbenchIO(Adapter.create(mth)) for k, mth in dut.calls.items()}
             circ = SimpleTestCircuit(dut, exclude={"calls", "exts"})
             ext_tb = {k: TestbenchIO(AdapterTrans.create(mth)) for k, mth in dut.exts.items()}
-            top = ModuleConnector(circ, *mocks.values(), *ext_tb.values())
+            # every second pipeline has a second, competing caller on its source and sink methods
+            rv = None
+            if idx % 2 == 1:
+                from ..comp.driver import RivalSet
+                rv = RivalSet({"src": dut.src, "snk": dut.snk})
+                rec.count("histories_with_rival_callers")
+            top = ModuleConnector(circ, *mocks.values(), *ext_tb.values(), *([rv] if rv is not None else []))
             sim = PysimSimulator(top, max_cycles=cycles + 80)
             from .. import txsan
             txsan.maybe_attach(sim, case)
@@ -127,6 +133,8 @@ def run_pipeline(rec, rnd, cycles, idx, clear_p):
                 sig += [mocks[k].adapter.done, mocks[k].adapter.data_out]
             for k in ext_tb:
                 sig += [ext_tb[k].adapter.done]
+            if rv is not None:
+                sig += rv.signals()
             trig = ctx.tick().sample(*sig)
             nid = 0
             # pending[s] = items (dicts of field values known so far) that have passed everything before observable stage s
@@ -149,9 +157,13 @@ def run_pipeline(rec, rnd, cycles, idx, clear_p):
                 drain = cyc >= cycles
                 if cyc % 60 == 59:
                     pr = {n: rnd.choice([0.3, 0.7, 1.0]) for n in pr}
-                ctx.set(circ.src.adapter.en, (not drain) and rnd.random() < pr["src"])
-                ctx.set(circ.src.adapter.data_in, {"id": nid & 255, "a": (nid * 7 + 3) & 255})
-                ctx.set(circ.snk.adapter.en, drain or rnd.random() < pr["snk"])
+                if rv is not None:
+                    rv.request(ctx, rnd, "src", circ.src, (not drain) and rnd.random() < pr["src"], {"id": nid & 255, "a": (nid * 7 + 3) & 255}, rec)
+                    rv.request(ctx, rnd, "snk", circ.snk, drain or rnd.random() < pr["snk"], None, rec)
+                else:
+                    ctx.set(circ.src.adapter.en, (not drain) and rnd.random() < pr["src"])
+                    ctx.set(circ.src.adapter.data_in, {"id": nid & 255, "a": (nid * 7 + 3) & 255})
+                    ctx.set(circ.snk.adapter.en, drain or rnd.random() < pr["snk"])
                 ctx.set(circ.clear.adapter.en, (not drain) and rnd.random() < clear_p)
                 for k, tb in mocks.items():
                     ctx.set(tb.adapter.en, drain or rnd.random() < pr[k])
@@ -163,6 +175,10 @@ def run_pipeline(rec, rnd, cycles, idx, clear_p):
                     arg = getattr(ctx.get(tb.adapter.data_out), st["x"])
                     ctx.set(tb.adapter.data_in, {st["out"]: (arg + 17) & ((1 << st["ow"]) - 1)})
                 _, _, d_src, d_snk, o_snk, d_clr, *rest = await trig
+                if rv is not None:
+                    rvals, rest = rest[-4:], rest[:-4]
+                    d_src, _ = rv.fold(rec, case, "src", d_src, None, rvals, {"cycle": cyc})
+                    d_snk, o_snk = rv.fold(rec, case, "snk", d_snk, o_snk, rvals, {"cycle": cyc})
                 i = 0
                 mdone, edone = {}, {}
                 for k in mocks:
